@@ -323,3 +323,64 @@ def generators_of_mixed_types(tier, rng, rep):
             rep.case(key=(t, order), nontrivial=True, sample=inp if (t, order) == (0, ("a", "b", "c")) else None)
             if len(rep.failures) >= 3:
                 return
+
+
+@bounded(P, "composite_transformations_on_polygons", functions=[PR + "Transformation.apply", PR + "Transformation._apply_to_data", PR + "Polygon._compute_aux_data"],
+         note="an array of k maps (as returned by rep.transformations(words)) acting on one polygon or, elementwise, on k polygons - including k equal to the number of vertices: entry i of "
+              "the result is map i applied to the (i-th) polygon, INCLUDING its derived data (edge j of entry i joins vertices j and j+1 of entry i)")
+def composite_transformations_on_polygons(tier, rng, rep):
+    N = 60 if tier == 'thorough' else 15
+    rep.rule = "k = 2..5 maps, polygons with 3..5 vertices (k = number of vertices in a third of the cases), projective (real and complex maps) / hyperbolic polygons, one polygon or k polygons; real and complex projective maps"
+    rep.bound = f"{N} rounds x 3 classes x 2 operand shapes"
+
+    def edges_msg(Q):
+        p = np.asarray(Q.proj_data)
+        want = np.stack([p, np.roll(p, -1, axis=-2)], axis=-2)
+        have = np.asarray(Q.aux_data)
+        if have.shape[:-2] != want.shape[:-2] or have.shape[-1] != want.shape[-1]:
+            return f"derived data of shape {have.shape} for vertices of shape {p.shape}"
+        have = have[..., :2, :]
+        m = have[..., :, None] * want[..., None, :]
+        if not np.all(np.isfinite(have)) or not np.all(np.abs(m - np.swapaxes(m, -1, -2)) <= 1e-7 * max(1.0, np.max(np.abs(m)))):
+            return "an edge does not join its vertex to the next one"
+        return None
+    for t in range(N):
+        nv = 3 + t % 3
+        k = nv if t % 3 == 0 else int(rng.integers(2, 6))
+        for cls in ("ProjPolygon", "ProjPolygonComplexMaps", "HypPolygon"):
+            for many in (False, True):
+                shape = (k,) if many else ()
+                if cls == "HypPolygon":
+                    ang = np.sort(rng.uniform(0, 2 * np.pi, size=shape + (nv,)), axis=-1)
+                    r_ = rng.uniform(0.2, 0.9, size=shape + (nv,))
+                    X = h.Polygon(h.Point(np.stack([r_ * np.cos(ang), r_ * np.sin(ang)], axis=-1), model="klein"))
+                    T = h.Isometry(np.array([(h.Isometry.standard_rotation(rng.uniform(-3, 3)) @ h.Isometry.standard_loxodromic(2, rng.uniform(0.5, 2))).proj_data for _ in range(k)]))
+                else:
+                    ang = np.sort(rng.uniform(0, 2 * np.pi, size=shape + (nv,)), axis=-1)
+                    pts = np.stack([np.ones_like(ang), np.cos(ang) * rng.uniform(0.8, 1.2), np.sin(ang)], axis=-1)
+                    X = pr.Polygon(pts)
+                    T = pr.Transformation(rng.normal(size=(k, 3, 3)) if cls == "ProjPolygon" else rng.normal(size=(k, 3, 3)) + 1j * rng.normal(size=(k, 3, 3)))
+                inp = {"class": cls, "maps": k, "vertices": nv, "polygons": k if many else 1, "matrices_re": np.real(np.asarray(T.proj_data)).tolist(), "matrices_im": np.imag(np.asarray(T.proj_data)).tolist(), "polygon_data": np.asarray(X.proj_data).tolist()}
+
+                def body():
+                    Y = T @ X
+                    if Y.shape != (k,):
+                        rep.fail("composite_shape", f"{Y.shape} for {k} maps on {'%d polygons' % k if many else 'one polygon'}", inp); return
+                    msg = edges_msg(Y)
+                    if msg:
+                        rep.fail("derived_data_moves_with_the_object", msg, inp); return
+                    for i in range(k):
+                        Ti = type(T)(np.asarray(T.proj_data)[i].copy())
+                        Yi = Ti @ (X[i] if many else X)
+                        a, b = np.asarray(Y.proj_data)[i], np.asarray(Yi.proj_data)
+                        m = a[..., :, None] * b[..., None, :]
+                        if a.shape != b.shape or not np.all(np.abs(m - np.swapaxes(m, -1, -2)) <= 1e-8 * max(1.0, np.max(np.abs(m)))):
+                            rep.fail("entry_i_is_map_i_applied", f"entry {i}", inp); return
+                        a, b = np.asarray(Y.aux_data)[i], np.asarray(Yi.aux_data)
+                        m = a[..., :, None] * b[..., None, :]
+                        if a.shape != b.shape or not np.all(np.abs(m - np.swapaxes(m, -1, -2)) <= 1e-8 * max(1.0, np.max(np.abs(m)))):
+                            rep.fail("derived_data_moves_with_the_object", f"derived data of entry {i} differs from that of map {i} applied alone", inp); return
+                rep.attempt("apply_runs", inp, body)
+                rep.case(key=(t, cls, many), nontrivial=True, sample=inp if (t, cls, many) == (0, "ProjPolygon", True) else None)
+                if len(rep.failures) >= 3:
+                    return
